@@ -11,9 +11,10 @@
     LockedMachine._locked_method `if _ident.current != get_ident(): with nested(*machine_context)`
                                                                                ↦ `Op.call`, `ctxsFor`
     LockedHierarchicalMachine   `event_cls = NestedEvent`; a model's trigger is
-                                `partial(self.trigger_event, model, name)`, a *public method*, so
-                                only `_locked_method` applies: machine contexts, never the model's
-                                                                               ↦ `Cfg.hsm`
+                                `partial(self.trigger_event, model, name)`, a *public method*;
+                                `LockedHierarchicalMachine._locked_method` enters the model's
+                                context list for it (machine contexts when the map has no entry)
+                                                                               ↦ `Cfg.hsm`, `ctxsFor`
     nested()/ExitStack          enter in order, one `__enter__` per step; unwind in reverse order,
                                 one `__exit__` per step, on return and on raise alike
                                                                                ↦ `pend`, `frames`
@@ -82,11 +83,16 @@ def WF (c : Cfg) (L : Nat) : Prop :=
 
 instance (c : Cfg) (L : Nat) : Decidable (WF c L) := by unfold WF; infer_instance
 
-/-- the contexts a non re-entrant call enters -/
+/-- the contexts a non re-entrant call enters.
+  * public machine method: `_locked_method` → `machine_context`;
+  * event on a flat machine: `LockedEvent.trigger` → `model_context_map[id(model)]`;
+  * event on a hierarchical machine: the model's trigger is the public `trigger_event`, wrapped by
+    `LockedHierarchicalMachine._locked_method`:
+    `contexts = self.model_context_map.get(id(model)) or self.machine_context`. -/
 def ctxsFor (c : Cfg) (tgt : Nat) : List Ctx :=
   match tgt with
   | 0 => c.mctx
-  | m + 1 => if c.hsm then c.mctx else c.cmap m
+  | m + 1 => if c.hsm then (if (c.cmap m).isEmpty then c.mctx else c.cmap m) else c.cmap m
 
 /-- what the statement asks for: every machine and model context -/
 def configured (c : Cfg) (tgt : Nat) : List Ctx :=
